@@ -581,6 +581,37 @@ class ArrayElements(Stage):
         return res
 
 
+class InHistories(Stage):
+    """decoration is a function of the message alone: in generated histories - messages newer than the descriptions or with more
+    arguments than described next to ordinary ones, the same message again later, nil arguments, enum arguments, objects never
+    seen created and their delete_id - every shown line carries exactly the names, nil types and labels the descriptions give
+    that message, whatever was decoded before it"""
+    name = 'in-histories'
+
+    def examples(self, tier):
+        return 200 if tier == 'quick' else 14 * 1500
+
+    def gen(self, d, tier):
+        from .. import histgen
+        prof = dict(reuse=0.6, weights=dict(newer=22, repeat=10, message=40, enum=16, nulls=12, null_strings=8, bind=12, delete=8, sync=4, midsession=8, title=6))
+        return dict(dialect=d.choice(['new', 'old']), specs=histgen.history(d, nconn=d.int(1, 2), nmsg=d.int(6, 30), profile=prof))
+
+    def execute(self, case):
+        from .. import tracker
+        tr, full = tracker.run_history(case['specs'], [tracker.check_attribution], case.get('dialect', 'new'))
+        res = Result()
+        res.evals = full.evals
+        for b, msg in full.discs:
+            if b.startswith('rendered-line') or b.startswith('crash:'):
+                res.bad('history:' + b, msg)      # (attribution itself is C02's business)
+        names = [m['name'] for m in case['specs']]
+        res.nontrivial = any(m['name'] in ('future_request', 'set_v99_thing', 'frob', 'new') for m in case['specs']) and len(names) >= 6
+        res.label('dialect:' + case.get('dialect', 'new'))
+        if res.nontrivial: res.label('message-newer-than-the-descriptions')
+        res.sample = dict(lines=[wire.render(m, 'new') for m in case['specs'][:8]], n=len(case['specs']))
+        return res
+
+
 class InstalledElsewhere(Stage):
     """where the tool happens to be installed must not matter: the working tree is copied (without .git) to scratch locations of
     different shapes - below a hidden directory as under ~/.local/share, a path with a blank, a path with dots - and the same
@@ -642,7 +673,7 @@ class C07(Prop):
     assumptions = ['protoxml.py (own ElementTree reader and literal evaluator) is the oracle',
                    'ties at equal maximal version: any one description is accepted, consistently per interface',
                    'arguments that carry no enum attribute in the XML (hand-tagged by the tool) are not judged']
-    stages = [Shipped(), Pipeline(), ArrayElements(), Synthetic(), InstalledElsewhere()]
+    stages = [Shipped(), Pipeline(), ArrayElements(), Synthetic(), InHistories(), InstalledElsewhere()]
 
 
 PROP = C07()
